@@ -40,11 +40,28 @@ RECURSIVE Seqs(_)
 Seqs(n) == IF n = 0 THEN {<<>>} ELSE {Append(h, c) : h \in Seqs(n - 1), c \in DOMAIN Pool}
 ExecStep(c, prog) == [op |-> "exec", ctx |-> c, ast |-> prog, text |-> Render(prog)]
 
+\* a call site evaluated several times while its variable comes to hold an object of another module: the method of one
+\* module must never run on the other module's object (the text is rejected, or the run fails when it gets there)
+Foreign == <<
+  "A = vobj(1);\nfor I in 1 to 3 loop print A.tag(); A = utf8(\"x\"); end loop;\nprint \"end\";",
+  "A = utf8(\"x\");\nfor I in 1 to 3 loop print A.count(); A = vobj(1); end loop;\nprint \"end\";",
+  "A = vobj(1); K = 0;\nwhile K < 3 loop K = K + 1; print A.tag(); A = utf8(\"x\"); end loop;\nprint \"end\";",
+  "A = vobj(1); B = utf8(\"x\");\nfor I in 1 to 3 loop print A.self().tag(); if I == 2 then A = B; end if; end loop;\nprint \"end\";",
+  "T = tab(2, vobj(1));\nforall E in T loop print E.tag(); E = utf8(\"x\"); print E.tag(); end loop;\nprint \"end\";"
+>>
 VARIABLE p
 Init == p \in {[kind |-> "seq", h |-> h] : h \in UNION {Seqs(n) : n \in 0..H}}
+              \cup {[kind |-> "foreign", h |-> <<j>>] : j \in DOMAIN Foreign}
               \cup {[kind |-> k, h |-> h] : k \in {"clone1", "clone2", "purge"}, h \in UNION {Seqs(n) : n \in 0..1}}
 Next == UNCHANGED p
 Scenario(q) ==
+  IF q.kind = "foreign" THEN
+    [prop |-> "C17", key |-> "foreign",
+     steps |-> << [op |-> "new", ctx |-> 0, trusted |-> TRUE], [op |-> "exec", ctx |-> 0, free |-> TRUE, text |-> "import vobj; import utf8;"],
+                  [op |-> "exec", ctx |-> 0, free |-> TRUE, must_fail |-> TRUE, text |-> Foreign[q.h[1]]],
+                  [op |-> "new", ctx |-> 1, trusted |-> TRUE],
+                  [op |-> "step", ctx |-> 1, free |-> TRUE, must_fail |-> TRUE, text |-> Foreign[q.h[1]]], [op |-> "free", ctx |-> 0], [op |-> "free", ctx |-> 1] >>]
+  ELSE
   LET Ops[j \in 0..Len(q.h)] == IF j = 0 THEN <<>> ELSE Ops[j - 1] \o <<ExecStep(0, <<Pool[q.h[j]]>>)>>
       start == << [op |-> "new", ctx |-> 0, trusted |-> TRUE], [op |-> "exec", ctx |-> 0, free |-> TRUE, text |-> "import vobj;"],
                   [op |-> "new", ctx |-> 0, trusted |-> TRUE], ExecStep(0, Prelude) >>
